@@ -419,6 +419,12 @@ func (s *Syncer) addPeer(p *Peer) error {
 			return errors.New("too many inbound peers")
 		}
 	}
+	if _, ok := s.peers[p.t.Addr]; ok {
+		// peers are keyed by the address they announce; a second connection
+		// announcing the same address would replace the first in the map, which
+		// then is neither counted against the caps nor disconnected on shutdown
+		return fmt.Errorf("already connected to %v", p.t.Addr)
+	}
 	s.peers[p.t.Addr] = p
 	return nil
 }
